@@ -16,6 +16,8 @@ CONSTANTS
   ArbAlpha = {48}
   ArbLen = 0
   Modes = {"tok"}
+  LongReps = {}
+  LongLens = {}
   W1 = 40
   W2 = 64
 CONSTRAINT Report
